@@ -5,8 +5,8 @@ use educe::Educe;
 use core::cmp::Ordering;
 #[derive(Educe)]
 #[educe(Hash)]
-pub enum T { Zed { #[educe(Hash(method("m_hash")))] source: A<0>, #[educe(Hash(ignore(true)))] state: A<0>, b: A<2>, #[educe(Hash = false)] a: A<3> }, Some, Unit { source: A<0>, #[educe(Hash(ignore(true)))] arg: A<0> } }
-pub fn values() -> Vec<T> { vec![T::Zed { source: A(0), state: A(1), b: A(1), a: A(1) }, T::Zed { source: A(1), state: A(1), b: A(1), a: A(7) }, T::Zed { source: A(0), state: A(1), b: A(0), a: A(1) }, T::Zed { source: A(0), state: A(7), b: A(0), a: A(0) }, T::Zed { source: A(0), state: A(7), b: A(7), a: A(7) }, T::Zed { source: A(1), state: A(0), b: A(7), a: A(1) }, T::Zed { source: A(1), state: A(7), b: A(0), a: A(0) }, T::Zed { source: A(1), state: A(0), b: A(1), a: A(1) }, T::Zed { source: A(0), state: A(1), b: A(0), a: A(0) }, T::Zed { source: A(1), state: A(7), b: A(1), a: A(1) }, T::Zed { source: A(7), state: A(7), b: A(1), a: A(7) }, T::Zed { source: A(1), state: A(1), b: A(1), a: A(1) }, T::Zed { source: A(7), state: A(1), b: A(0), a: A(1) }, T::Zed { source: A(7), state: A(7), b: A(1), a: A(0) }, T::Zed { source: A(7), state: A(1), b: A(1), a: A(1) }, T::Zed { source: A(7), state: A(0), b: A(1), a: A(1) }, T::Some, T::Unit { source: A(0), arg: A(0) }, T::Unit { source: A(0), arg: A(1) }, T::Unit { source: A(0), arg: A(7) }, T::Unit { source: A(1), arg: A(0) }, T::Unit { source: A(1), arg: A(1) }, T::Unit { source: A(1), arg: A(7) }, T::Unit { source: A(7), arg: A(0) }, T::Unit { source: A(7), arg: A(1) }, T::Unit { source: A(7), arg: A(7) }] }
-pub fn show(x: &T) -> String { #[allow(unused_variables)] match x { T::Zed { source: p0, state: p1, b: p2, a: p3 } => format!("Zed({},{},{},{})", sv(p0), sv(p1), sv(p2), sv(p3)), T::Some => format!("Some()"), T::Unit { source: p0, arg: p1 } => format!("Unit({},{})", sv(p0), sv(p1)) } }
-pub fn o_hash(x: &T) -> Vec<String> { let mut e = Rec::default(); match x { T::Zed { source: p0, state: p1, b: p2, a: p3 } => { ::core::hash::Hash::hash(&0usize, &mut e); m_hash(p0, &mut e); ::core::hash::Hash::hash(p2, &mut e); }, T::Some => { ::core::hash::Hash::hash(&1usize, &mut e); }, T::Unit { source: p0, arg: p1 } => { ::core::hash::Hash::hash(&2usize, &mut e); ::core::hash::Hash::hash(p0, &mut e); } } e.0 }
+pub struct T(#[educe(Hash(ignore))] A<0>, #[educe(Hash(ignore))] A<1>, #[educe(Hash(ignore))] A<2>);
+pub fn values() -> Vec<T> { vec![T(A(0), A(0), A(0)), T(A(0), A(0), A(1)), T(A(0), A(0), A(7)), T(A(0), A(1), A(0)), T(A(0), A(1), A(1)), T(A(0), A(1), A(7)), T(A(0), A(7), A(0)), T(A(0), A(7), A(1)), T(A(0), A(7), A(7)), T(A(1), A(0), A(0)), T(A(1), A(0), A(1)), T(A(1), A(0), A(7)), T(A(1), A(1), A(0)), T(A(1), A(1), A(1)), T(A(1), A(1), A(7)), T(A(1), A(7), A(0)), T(A(1), A(7), A(1)), T(A(1), A(7), A(7)), T(A(7), A(0), A(0)), T(A(7), A(0), A(1)), T(A(7), A(0), A(7)), T(A(7), A(1), A(0)), T(A(7), A(1), A(1)), T(A(7), A(1), A(7)), T(A(7), A(7), A(0)), T(A(7), A(7), A(1)), T(A(7), A(7), A(7))] }
+pub fn show(x: &T) -> String { #[allow(unused_variables)] match x { T(p0, p1, p2) => format!("T({},{},{})", sv(p0), sv(p1), sv(p2)) } }
+pub fn o_hash(x: &T) -> Vec<String> { let mut e = Rec::default(); match x { T(p0, p1, p2) => {  } } e.0 }
 pub fn run(out: &mut Out) { let vs = values(); for a in &vs { let mut g = Rec::default(); ::core::hash::Hash::hash(a, &mut g); let e = o_hash(a); out.check(g.0 == e, "hash_15", "hash", || format!("hash({}) fed {:?} expected {:?}", show(a), g.0, e)); } }
